@@ -208,6 +208,17 @@ func (c *Config) fetchToken(ctx context.Context) (*TokenInfo, error) {
 		return nil, errorchain.New(heimdall.ErrCommunication).CausedBy(err)
 	}
 
+	// an expires_in of 0 tells, that the token is already expired. That is not the same as
+	// an absent expires_in, which tells nothing about the lifetime of the token.
+	var lifetime struct {
+		ExpiresIn *int64 `json:"expires_in"`
+	}
+
+	if err = json.Unmarshal(rawData, &lifetime); err == nil &&
+		lifetime.ExpiresIn != nil && *lifetime.ExpiresIn == 0 {
+		tokenInfo.Expiry = time.Now()
+	}
+
 	return tokenInfo, nil
 }
 
